@@ -75,12 +75,18 @@ func garbleJSONAtAncestor(t *sim.Tape, upd *sdcpb.Update) (string, string) {
 	if n := len(upd.Path.GetElem()); n > 0 {
 		upd.Path.Elem = upd.Path.Elem[:t.Choose(n)]
 	}
-	docs := []string{"", `null`, `{}`, `[]`, `{"name":`, `{"x":[1,{"y":null}],"name":{}}`, `"just a string"`, `[[[[[[[[[[1]]]]]]]]]]`, `{"vsim:name":"a","vsim-ext:unknown":{"a":[null]}}`, `{"name":null}`, `[{"name":"a"},{"name":"a"}]`, `7`}
+	docs := []string{"", `null`, `{}`, `[]`, `{"name":`, `{"x":[1,{"y":null}],"name":{}}`, `"just a string"`, `[[[[[[[[[[1]]]]]]]]]]`, `{"vsim:name":"a","vsim-ext:unknown":{"a":[null]}}`, `{"name":null}`, `[{"name":"a"},{"name":"a"}]`, `7`, `{"sys":{"hostname":"h9"}}`, `{"k1":[{"name":"a","val":"v9"}]}`, `{"vsim:sys":{"hostname":"h9"},"vsim:nums":[1,2]}`}
 	d := docs[t.Choose(len(docs))]
 	if t.Bool(1, 2) {
 		upd.Value = &sdcpb.TypedValue{Value: &sdcpb.TypedValue_JsonVal{JsonVal: []byte(d)}}
 	} else {
 		upd.Value = &sdcpb.TypedValue{Value: &sdcpb.TypedValue_JsonIetfVal{JsonIetfVal: []byte(d)}}
+	}
+	if t.Bool(1, 6) {
+		// the device left the update's path out (the document is meant for the notification's prefix / the root): the
+		// path message is absent on the wire and utils.FromGNMIPath hands a nil path on
+		upd.Path = nil
+		return "no-path", fmt.Sprintf("json-doc %q", d)
 	}
 	return fmt.Sprintf("ancestor-%d", len(upd.Path.GetElem())), fmt.Sprintf("json-doc %q", d)
 }
@@ -333,6 +339,13 @@ func runC20(rc *sim.RunCtx) {
 			e.SetText([]string{lex, "", "notanumber", "99999999999999999999999"}[t.Choose(4)])
 			if t.Bool(1, 4) {
 				e.CreateElement("unexpected").SetText("x")
+			}
+			if t.Bool(1, 5) {
+				// the device also reports a leaf-list that sits right below the module, as siblings of the top-level containers
+				for j := 0; j <= t.Choose(3); j++ {
+					root.CreateElement("tll").SetText(fmt.Sprintf("t%d", j))
+				}
+				rc.Probe("netconf-reply-top-level-leaf-list")
 			}
 			drv := world.NewNCDriver(nil)
 			drv.GetConfigFn = func(string, string) (*etree.Document, error) { return doc, nil }
